@@ -771,7 +771,9 @@ func (P *Program) registerSQL() {
 		if st.failAt > 0 && st.commits == st.failAt {
 			return in.mkError("injected storage failure at commit")
 		}
-		st.db = tx.local
+		if tx.wrote {
+			st.db = tx.local
+		} // a transaction that wrote nothing leaves whatever was committed meanwhile in place
 		if st.killAt > 0 && st.commits == st.killAt {
 			panic(killSignal{})
 		}
@@ -789,16 +791,100 @@ func (P *Program) registerSQL() {
 	P.reg("(*database/sql.Tx).Commit", commit)
 	P.reg("(*"+X+".Tx).Rollback", rollback)
 	P.reg("(*database/sql.Tx).Rollback", rollback)
-	dbExec := func(fr *frame, args []value) value {
+	// autoExec: a statement executed outside a transaction is its own committed write
+	isWrite := func(q string) bool {
+		t := strings.ToLower(strings.TrimSpace(q))
+		return strings.HasPrefix(t, "insert") || strings.HasPrefix(t, "update") || strings.HasPrefix(t, "delete")
+	}
+	autoExec := func(fr *frame, st *dbState, query string, binds *sqlm.Args) value {
 		in := fr.in
-		st := hDB(args[0])
+		in.storageOp(fr, st)
+		w := isWrite(query)
+		if w {
+			st.commits++
+			if st.failAt > 0 && st.commits == st.failAt {
+				return tuple{in.sqlResult(nil), in.mkError("injected storage failure at commit")}
+			}
+		}
 		local := st.db.Clone()
-		err, n := in.sqlExec(st, local, in.goStr(args[1], "sql text"), in.bindArgs(args[2].(sliceVal)))
+		err, n := in.sqlExec(st, local, query, binds)
 		if err.(iface).t == nil {
 			st.db = local
 		}
+		if w && st.killAt > 0 && st.commits == st.killAt {
+			panic(killSignal{})
+		}
 		return tuple{in.sqlResult(n), err}
 	}
+	dbExec := func(fr *frame, args []value) value {
+		in := fr.in
+		return autoExec(fr, hDB(args[0]), in.goStr(args[1], "sql text"), in.bindArgs(args[2].(sliceVal)))
+	}
+	// prepared statements: bound to the pool (each execution autocommits) or to a transaction
+	type stmtHandle struct {
+		st    *dbState
+		tx    *txHandle
+		query string
+	}
+	mkStmt := func(in *Interp, h *stmtHandle) value {
+		var inner value = &opaque{kind: "sql.Stmt", data: h}
+		outer := in.zero(in.P.namedType(X + ".Stmt"))
+		outer.(structure)[0] = &inner
+		return &outer
+	}
+	hStmt := func(v value) *stmtHandle {
+		p := v.(*value)
+		if p == nil {
+			panic(targetPanic{msg: "runtime error: invalid memory address or nil pointer dereference (nil *sqlx.Stmt)"})
+		}
+		if st, ok := (*p).(structure); ok {
+			p = st[0].(*value)
+		}
+		return (*p).(*opaque).data.(*stmtHandle)
+	}
+	P.reg("(*"+X+".DB).Preparex", func(fr *frame, args []value) value {
+		return tuple{mkStmt(fr.in, &stmtHandle{st: hDB(args[0]), query: fr.in.goStr(args[1], "sql text")}), iface{}}
+	})
+	P.reg("(*"+X+".DB).PreparexContext", func(fr *frame, args []value) value {
+		return tuple{mkStmt(fr.in, &stmtHandle{st: hDB(args[0]), query: fr.in.goStr(args[2], "sql text")}), iface{}}
+	})
+	P.reg("(*"+X+".Tx).Preparex", func(fr *frame, args []value) value {
+		tx := hTx(args[0])
+		return tuple{mkStmt(fr.in, &stmtHandle{st: tx.st, tx: tx, query: fr.in.goStr(args[1], "sql text")}), iface{}}
+	})
+	P.reg("(*"+X+".Tx).PreparexContext", func(fr *frame, args []value) value {
+		tx := hTx(args[0])
+		return tuple{mkStmt(fr.in, &stmtHandle{st: tx.st, tx: tx, query: fr.in.goStr(args[2], "sql text")}), iface{}}
+	})
+	stmtx := func(k int) intrinsic {
+		return func(fr *frame, args []value) value {
+			tx := hTx(args[0])
+			h := hStmt(args[k].(iface).v)
+			return mkStmt(fr.in, &stmtHandle{st: tx.st, tx: tx, query: h.query})
+		}
+	}
+	P.reg("(*"+X+".Tx).Stmtx", stmtx(1))
+	P.reg("(*"+X+".Tx).StmtxContext", stmtx(2))
+	stmtExec := func(k int) intrinsic {
+		return func(fr *frame, args []value) value {
+			in := fr.in
+			h := hStmt(args[0])
+			binds := in.bindArgs(args[k].(sliceVal))
+			if h.tx != nil {
+				h.tx.wrote = true
+				in.storageOp(fr, h.tx.st)
+				err, n := in.sqlExec(h.tx.st, h.tx.local, h.query, binds)
+				return tuple{in.sqlResult(n), err}
+			}
+			return autoExec(fr, h.st, h.query, binds)
+		}
+	}
+	P.reg("(*"+X+".Stmt).Exec", stmtExec(1))
+	P.reg("(*"+X+".Stmt).ExecContext", stmtExec(2))
+	P.reg("(*"+X+".Stmt).Close", func(fr *frame, args []value) value { return iface{} })
+	P.reg("(*database/sql.Stmt).Exec", stmtExec(1))
+	P.reg("(*database/sql.Stmt).ExecContext", stmtExec(2))
+	P.reg("(*database/sql.Stmt).Close", func(fr *frame, args []value) value { return iface{} })
 	P.reg("(*"+X+".DB).Exec", dbExec)
 	P.reg("(*database/sql.DB).Exec", dbExec)
 	queryRow := func(fr *frame, args []value) value {
